@@ -229,7 +229,112 @@ def contracts():
         sites={('random.sample', 0): site_sample},
         sites_strict=('random.sample', 'random.random', 'random.choice', 'random.expovariate'),
         ensures=post))
+    cs.extend(sis_contracts())
     return cs
+
+
+# ---------------------------------------------------------------------------------------------------
+# basic_discrete_SIS (plain arrays): Reed-Frost step of the discrete SIS chain
+# ---------------------------------------------------------------------------------------------------
+def DRAW():
+    """ghost name of the U01 draw made for the ordered contact (u, v) in the current step.  Naming is sound because the draw site is
+    executed at most once per pair and step: the two loops enumerate the infectious set / the neighbours without repetition (assumed
+    contracts of set iteration and G.neighbors) and every other draw site is rejected (sites_strict)"""
+    return z3.Function('contact_draw_%d' % so.Mode.gen, so.U(), so.U(), R)
+
+
+def sis_rows(s):
+    n = s.t.n
+    k = init_count(s.old)
+    return And(n >= 1, s.S.n == n, s.I.n == n, s.N == s.G.N,
+               so.forall_idx(n, lambda j: And(s.t.a[j] == s.old.tmin + j, s.S.a[j] + s.I.a[j] == s.G.N, s.S.a[j] >= 0, s.I.a[j] >= 0)),
+               so.forall_idx(n, lambda j: so.xr_le(so.to_xr(s.t.a[j]), s.old.tmax), lo=1),
+               s.I.a[0] == k, s.S.a[0] == s.G.N - k)
+
+
+def sis_main_inv(s, it):
+    return And(sis_rows(s), s.I.last() == card(s.infecteds), s.p == s.old.p)
+
+
+def sis_step(s, it):
+    """ONE pass of the main loop is one step of the discrete SIS chain: exactly one row is appended, and the new infectious set is
+    the set of nodes that were not infectious and had a successful contact (own draw < p) from a node that was"""
+    h = it.head
+    G = s.G
+    inf0, inf1 = h.infecteds, s.infecteds
+    hit = lambda v: so.exists(so.U(), lambda u: And(inf0.dom[u], G.adj(u, v), DRAW()(u, v) < s.old.p))
+    return And(s.t.n == h.t.n + 1, s.t.last() == h.t.last() + 1,
+               so.forall(so.U(), lambda v: inf1.dom[v] == And(Not(inf0.dom[v]), hit(v))))
+
+
+def sis_gen(s, pair_done):
+    """new_infecteds = the nodes outside the infectious set reached by an already processed successful contact (draw < p) from an
+    infectious neighbour; the infectious set itself is not touched during the step (so it is S one step later unless re-infected)"""
+    G = s.G
+    new, inf = s.new_infecteds, s.infecteds
+    reached = lambda v: so.exists(so.U(), lambda u: And(inf.dom[u], G.adj(u, v), DRAW()(u, v) < s.p, pair_done(u, v)))
+    return And(sis_rows(s), s.I.last() == card(inf), s.p == s.old.p,
+               so.forall(so.U(), lambda v: new.dom[v] == And(Not(inf.dom[v]), reached(v))))
+
+
+def sis_gen_outer(s, it):
+    return sis_gen(s, lambda u, v: it.done(u))
+
+
+def sis_gen_inner(s, it):
+    outer = it.outer
+    u0 = s.u
+    return And(s.infecteds.dom[u0], sis_gen(s, lambda u, v: Or(outer.done(u), And(u == u0, it.done(v)))))
+
+
+def sis_site_contact(s, info):
+    """the contact (u, v) is tested only for v outside the infectious set, by its own uniform draw compared with p"""
+    u, v = s.u, s.v
+    s.run.assume(info['value'] == DRAW()(u, v))
+    return info['cond'] == And(Not(s.infecteds.dom[v]), info['value'] < s.p)
+
+
+def sis_post(old, s, ret):
+    if not (isinstance(ret, tuple) and len(ret) == 3 and all(isinstance(x, SList) for x in ret)):
+        return BoolVal(False)
+    t, S_, I_ = ret
+    n = t.n
+    N = old.G.N
+    k = init_count(old)
+    return And(n >= 1, S_.n == n, I_.n == n,
+               so.forall_idx(n, lambda j: And(t.a[j] == old.tmin + j, S_.a[j] + I_.a[j] == N, S_.a[j] >= 0, I_.a[j] >= 0)),
+               so.forall_idx(n, lambda j: so.xr_le(so.to_xr(t.a[j]), old.tmax), lo=1),
+               I_.a[0] == k, S_.a[0] == N - k,
+               # stops only by extinction or when the next step would pass tmax
+               Or(I_.last() == 0, Not(so.xr_le(so.to_xr(t.last() + 1), old.tmax))))
+
+
+def dsis_cases():
+    out = []
+    for nm, ii, rho in (('list', T.distinct_list('U'), T.none), ('node', T.node, T.none), ('rho', T.none, T.real),
+                        ('default', T.none, T.none), ('both-given', T.distinct_list('U'), T.real)):
+        out.append(Case(nm, dict(G=T.graph(), p=T.real, initial_infecteds=ii, rho=rho, tmin=T.integer, tmax=T.xreal,
+                                 return_full_data=T.false, sim_kwargs=T.none)))
+    return out
+
+
+def sis_requires(s):
+    c = [s.G.N >= 1, s.p >= 0, s.p <= 1]
+    if s.rho is not NONE:
+        c += [s.rho >= 0, s.rho <= 1]
+    return And(*c)
+
+
+def sis_contracts():
+    return [Contract(F, 'basic_discrete_SIS',
+        cases=dsis_cases(), axioms=axioms_for, requires=sis_requires,
+        must_raise=lambda old: BoolVal(old.rho is not NONE and old.initial_infecteds is not NONE),
+        locals_={'new_infecteds': T.set_of('U'), 'infector': T.dict_of_lists('U', 'U'), 'infecteds': T.set_of('U'),
+                 't': T.list_of('I'), 'S': T.list_of('I'), 'I': T.list_of('I')},
+        loops={1: LoopSpec(sis_main_inv, step_post=sis_step), 2: sis_gen_outer, 3: sis_gen_inner},
+        sites={('random.sample', 0): site_sample, ('random.random:test', 0): sis_site_contact},
+        sites_strict=('random.sample', 'random.random', 'random.choice', 'random.expovariate'),
+        ensures=sis_post)]
 
 
 def _bernoulli(old, s, ret):
